@@ -69,6 +69,11 @@ def pack_cases(tier, rng):
     corner = [b"_", b"a", b"Z", b"[", b"`", b"{", b"@", b"A1", b"a0", b"ab", b"aB_", b"0", b"~"]
     for _ in range(6 if not thorough else 40):
         pick = rng.sample(corner, rng.randrange(2, 8)); add([(n, content(rng, rng.randrange(0, 9))) for n in pick], "ordering-corners")
+    # names that differ only by 0x20 at a NON-letter ('[' / '{', '@' / '`', ']' / '}', '^' / '~', '_' / DEL, '\\' / '|', 0xC1 / 0xE1):
+    # not equal ignoring case, so they pack side by side — whatever shortcut the library takes for folding case
+    for x, y in ((b"[", b"{"), (b"@", b"`"), (b"]", b"}"), (b"^", b"~"), (b"_", b"\x7f"), (b"\\", b"|"), (b"\xc1", b"\xe1"), (b"0", b"\x10")):
+        add([(b"r" + x + b"1.t", content(rng, 3)), (b"d/r" + y + b"1.t", content(rng, 2)), (b"q", content(rng, 1))], "distinct-at-distance-0x20")
+        add([(y, content(rng, 1)), (x, content(rng, 4))], "distinct-at-distance-0x20")
     # a backslash is an ordinary character of a POSIX file name (it is part of the final component, of the sort key and of
     # the stored name alike)
     for pick in ([b"m.txt", b"z\\a.txt"], [b"x\\k", b"y\\j", b"a"], [b"b\\", b"\\a", b"B", b"c\\c\\c"]):
